@@ -33,6 +33,18 @@ func (node *tagFilterNode) Execute(ctx *ExecutionContext, writer TemplateWriter)
 			if err != nil {
 				return err
 			}
+
+			// The body is rendered (and escaped) already and the result is written
+			// as it is, so text a parameter brings in from the context (not a
+			// literal of the template) has to be escaped here.
+			_, isLiteral := call.paramExpr.(*stringResolver)
+			_, isStringer := param.Interface().(fmt.Stringer)
+			if ctx.Autoescape && !isLiteral && !param.safe && (param.IsString() || isStringer) {
+				param, err = ApplyFilter("escape", param, nil)
+				if err != nil {
+					return err
+				}
+			}
 		} else {
 			param = AsValue(nil)
 		}
